@@ -199,6 +199,33 @@ def task_field(a, env):
     return r
 
 
+def subsub_case(fam, p1, mc1, p2, mc2, xs):
+    """class A over (p1, mc1) is created and used; then B = a subclass OF A overriding the prime and
+    the modulus (p2, mc2) is created and used; then A again"""
+    m = lib.fields_mod(fam)
+    attr = "FQ2_MODULUS_COEFFS"
+    A = type("SubA_%s_%d" % (fam, p1), (m.FQ2,), {"field_modulus": p1, attr: tuple(mc1)})
+    Bc = type("SubB_%s_%d" % (fam, p2), (A,), {"field_modulus": p2, attr: tuple(mc2)})
+    out = []
+    for step, (cls, p, mc) in enumerate(((A, p1, mc1), (Bc, p2, mc2), (A, p1, mc1))):
+        cfg = lib.Cfg(fam, p, tuple(mc), cls=cls)
+        F = cfg.F
+        for xm in xs:
+            xm = tuple(c % p for c in xm)
+            for ym in xs[:2]:
+                ym = tuple(c % p for c in ym)
+                for op in ("mul", "add"):
+                    got = fl.run_op(cfg, op, cfg.lib(xm), cfg.lib(ym))
+                    exp = fl.model_op(cfg, op, xm, ym)
+                    if got != exp:
+                        out.append((step, [p, list(mc)], op, [xm, ym], exp, got))
+            if not F.is_zero(xm):
+                got = fl.run_op(cfg, "inv", cfg.lib(xm))
+                if got != ("ok", F.inv(xm)):
+                    out.append((step, [p, list(mc)], "inv", [xm], ("ok", F.inv(xm)), got))
+    return out
+
+
 def seq_case(fam, p, mcs, xs):
     """one process, one history: classes over the SAME prime with DIFFERENT moduli are created and
     used one after the other (A, B, A again): products, inverses and powers against the model.
@@ -234,6 +261,16 @@ def task_moduli_seq(a, env):
     fam, p = a["fam"], a["p"]
     r = R("moduli-sequences:%s" % fam)
     xs = a["xs"]
+    if a.get("subsub"):
+        for (p1, mc1, p2, mc2) in a["subsub"]:
+            bad = subsub_case(fam, p1, mc1, p2, mc2, xs)
+            r.ev += 30
+            r.transitions += 3
+            r.dk.add(("subsub", p1, tuple(mc1), p2, tuple(mc2)))
+            for (step, cfgd, op, args, exp, got) in bad[:1]:
+                r.viol("C08:%s:FQ2:subclass-of-subclass:%s" % (fam, op), ME + ":replay_subsub",
+                       {"fam": fam, "p1": p1, "mc1": list(mc1), "p2": p2, "mc2": list(mc2), "xs": xs}, exp, got,
+                       note="step %d (%s) of A, B(A), A" % (step, cfgd))
     for pair in a["pairs"]:
         bad = seq_case(fam, p, pair, xs)
         r.ev += 3 * len(xs) * 3
@@ -249,6 +286,14 @@ def task_moduli_seq(a, env):
         r.sample({"family": fam, "p": p, "sequence": "class(mc A) -> class(mc B) -> class(mc A)", "pairs": len(a["pairs"]),
                   "first": a["pairs"][0]})
     return r
+
+
+def replay_subsub(a):
+    bad = subsub_case(a["fam"], a["p1"], a["mc1"], a["p2"], a["mc2"], a["xs"])
+    if not bad:
+        return None
+    step, cfgd, op, args, exp, got = bad[0]
+    return {"step": step, "field": cfgd, "op": op, "args": args, "expected": exp, "observed": got}
 
 
 def replay_seq(a):
@@ -503,6 +548,10 @@ def run(ctx):
             xs = [[0, 1], [1, 1], [2, p - 1], [p - 1, 3 % p]]
             for i in range(0, len(pairs), 30):
                 tasks.append(("moduli_seq", {"fam": fam, "p": p, "pairs": pairs[i:i + 30], "xs": xs, "sample": i == 0}))
+        q7, q11, q5 = fl.quadratics(7), fl.quadratics(11), fl.quadratics(5)
+        subsub = [(7, list(q7[0]), 11, list(q11[0])), (11, list(q11[1]), 7, list(q7[2])), (5, list(q5[0]), 7, list(q7[-1])),
+                  (7, list(q7[1]), 7, list(q7[3]))]
+        tasks.append(("moduli_seq", {"fam": fam, "p": 7, "pairs": [], "xs": [[0, 1], [1, 1], [2, 6], [3, 4]], "subsub": subsub}))
         for p in (2, 3):
             a12, b12 = [list(m) for m in d12[p]]
             xs = [[0, 1] + [0] * 10, [1] * 12, [1, 0, 1, 0, 0, 1] + [0] * 5 + [1]]
